@@ -22,7 +22,7 @@ def c02_jobs(tier):
 
 
 HOOK_COMMITS = ["9929591", "7ba38e4", "8db2741"]
-MODEL_PROPERTIES = ["C02", "C05", "C07", "C09", "C10", "C11", "C12"]
+MODEL_PROPERTIES = ["C02", "C05", "C07", "C08", "C09", "C10", "C11", "C12"]
 NOT_CLAIMED = {}
 
 CHECKS = {
@@ -204,5 +204,61 @@ CHECKS = {
         "assumptions": ["fresh digests are computed per shard with newly allocated objects used for one (key, version) each; two entries are tied to the reference model, the rest by C01/C02", "contract: no hash on a VM whose cache was released or re-keyed without re-binding; batches are atomic per VM"],
         "level_text": "Digests returned inside thousands of contract-respecting histories are compared with fresh-object digests while the allocator maximises address reuse and makes any stale access fault (or trip ASan). Histories are finite and sampled: exploration.",
         "level_note": "Found and fixed: dangling cache pointer after release + re-allocation at the same address (known_findings.txt).",
+    },
+    "C08": {
+        "level": "exploration",
+        "technique": "three-way differential (dataset bytes vs light-mode item vs reference-model item) + canary pattern + write-set log of the dataset-init routine + ASan",
+        "jobs": lambda tier: [
+            {"variant": "opt", "sub": "c08", "shards": 16, "cases": T(tier, 40, 1500), "args": {"model_items": T(tier, 600, 20000)}, "timeout": T(tier, 1800, 10800)},
+            {"variant": "asan", "sub": "c08", "shards": T(tier, 4, 8), "cases": T(tier, 4, 60), "args": {"model_items": 50, "full": 0}, "timeout": T(tier, 1800, 10800)},
+        ],
+        "parallel": 12,
+        "rule": "a case is one partition of a window of the dataset into consecutive randomx_init_dataset calls handed to 1-16 threads: windows start at 0, end at the last item or lie anywhere; counts are 0..9, 4k, 4k+1..3, up to 5000, 1..3 (stack-buffer branch) or 'the rest'; both the interpreter initialiser (default cache) and the compiled one (JIT cache) are used; "
+                "before the calls the window +- 8 items is filled with a pattern, afterwards the margins must still hold it, every item of the window must equal initDatasetItem and sampled items the model's item; the cache's dataset-init function pointer is wrapped to log (thread, destination, start, end) and the log is checked for containment in the calling thread's request and "
+                "pairwise disjointness across threads; thorough adds the complete dataset by both initialisers on 16 threads (all 34 078 719 items compared, 200 000 against the model); distinct by hash of the partition",
+        "assumptions": MODEL_ASSUMPTIONS[:1] + ["the dataset buffer is guard-allocated and lazily committed, only touched windows cost memory"],
+        "level_text": "Every initialised item in every explored call pattern is compared with the light-mode derivation (and a sample with the specification model), writes outside the request are caught by canaries and guard pages, and the compiled initialiser's writes (invisible to sanitizers) are turned into an event log. Partitions are sampled: exploration.",
+        "level_note": "Trusted base for the third leg: model SuperscalarHash + dataset item construction.",
+    },
+    "C14": {
+        "level": "exploration",
+        "technique": "ThreadSanitizer build under concurrent stress workloads with injected yields/sleeps between API calls + per-thread result comparison with the sequential run + write-set log for the compiled dataset initialiser",
+        "jobs": lambda tier: [
+            {"variant": "tsan", "sub": "c14", "shards": T(tier, 3, 8), "cases": T(tier, 1, 6), "args": {"nhashes": 2}, "timeout": T(tier, 2400, 14400), "weight": 5},
+            {"variant": "opt", "sub": "c14", "shards": T(tier, 2, 6), "cases": T(tier, 2, 10), "args": {"nhashes": T(tier, 3, 6), "dataset": 1}, "timeout": T(tier, 2400, 14400), "weight": 8},
+            {"variant": "tsan", "sub": "c14", "shards": T(tier, 0, 1), "cases": 2, "args": {"nhashes": 2, "dataset": 1}, "timeout": 14400, "weight": 16},
+        ],
+        "parallel": 5,
+        "rule": "a case is one concurrent round with 2-8 (thorough: up to 16) threads released together: W1 threads create / hash x n / destroy their own VM of a random class (interpreter, JIT, secure JIT, secure interpreter x soft/hard AES x v1/v2) over one shared cache, W2 the same over one shared dataset (opt build; TSan build in thorough), "
+                "W4 every fourth thread only touches private objects (own cache alloc / init / re-key / release, randomx_get_flags), then W3: the threads initialise disjoint dataset ranges with odd boundaries concurrently, once with the interpreter initialiser (instrumented) and once with the compiled one (write-set log); yields and short sleeps are injected between API calls; "
+                "digests and dataset items are compared with the sequential result; each distinct TSan report whose stacks lie in the repository sources is a violation; the evidence lists which pairs of API calls actually overlapped in time (call/return timestamps from one monotonic clock)",
+        "assumptions": ["TSan sees all C/C++ of the library but not generated machine code: a race whose both sides are inside generated code cannot be reported; generated code only reads shared memory except the compiled dataset initialiser, which is covered by the write-set log", "races that need a weaker memory model than x86-TSO are not provoked on this host"],
+        "level_text": "Happens-before race detection over the interleavings the stress workloads actually produced (reported as overlap counts per pair of API-call kinds), repeated because reports are schedule dependent, plus functional equality with the sequential results. A clean run is 'no race in what was executed', not absence of races.",
+        "level_note": "Found and fixed: data race on randomx::aesDummy in VmBase::allocate (known_findings.txt).",
+    },
+    "C15": {
+        "level": "fault_enumeration",
+        "technique": "allocation fault enumeration through link-time interposition (k-th posix_memalign / mmap / operator new inside the creating call fails) + address-keyed conservation of heap blocks and mappings + LeakSanitizer on fault-free cycles",
+        "jobs": lambda tier: [
+            {"variant": "opt", "sub": "c15", "shards": 16, "args": {"cycles": T(tier, 24, 1200)}, "timeout": T(tier, 1800, 10800)},
+            {"variant": "asan", "sub": "c15", "shards": T(tier, 2, 8), "args": {"inject": 0, "cycles": T(tier, 16, 300)}, "timeout": T(tier, 1800, 10800)},
+        ],
+        "exhaustive": True,
+        "rule": "creating calls x flag sets: randomx_alloc_cache x {JIT, LARGE_PAGES, ARGON2 ref/SSSE3/AVX2}, randomx_alloc_dataset x {LARGE_PAGES}, randomx_create_vm x all 64 combinations of {LARGE_PAGES, HARD_AES, FULL_MEM, JIT, SECURE, V2} with short and long (heap-allocated std::string) cache keys, each with large-page mappings succeeding (flag stripped by the interposed mmap) and failing; "
+                "a fault-free run records the N allocation requests issued inside the call, then request k fails for every k = 1..N (complete enumeration of single faults; thorough: also all pairs k1<k2); required: NULL result, no fatal signal, live heap blocks and mapped bytes (keyed by address) equal before and after, munmap length equal to mmap length, and a following fault-free create_vm (+ hash compared with a reference digest) succeeds; "
+                "plus NULL cache/dataset arguments, and fault-free create/use/destroy cycles with per-cycle balance and bounded RSS growth; distinct by hash of (call, fault)",
+        "assumptions": ["only allocation requests are failed (posix_memalign, mmap incl. large pages, operator new); mprotect failures are not allocation requests and are outside the property", "operator new faults are injected in the opt build only (ASan owns operator new in the asan build)"],
+        "level_text": "The space 'creating call x flag combination x index of the failing request' is finite and is enumerated completely for single faults in both tiers (exhaustive: true for that space), double faults in the thorough tier; outcomes are judged by return value, survival, conservation over the interposition event log and a follow-up use of the library.",
+        "level_note": "Large pages do not exist in the sandbox: 'succeeds' is simulated by stripping MAP_HUGETLB.",
+    },
+    "C16": {
+        "level": "exploration",
+        "technique": "online monitor over interposed mmap/mprotect requests with a per-mapping shadow protection map + /proc/self/maps snapshots at API boundaries",
+        "jobs": lambda tier: [{"variant": "opt", "sub": "c16", "shards": 16, "cases": T(tier, 3, 125), "args": {"ops": T(tier, 40, 60)}, "timeout": T(tier, 1800, 10800)}],
+        "rule": "a case is one API history (every third one on 2-4 threads) using only secure VMs ({JIT+SECURE, SECURE without JIT} x soft/hard AES x LARGE_PAGES x v1/v2) and any caches (JIT and non-JIT, with and without LARGE_PAGES): cache alloc/init/re-key/release, VM creation, single and pipelined hashes, re-binding, version switches, destruction; "
+                "every mmap/mprotect the library issues is attributed to the mapping's owner (tag set by the creating API call) and must never carry WRITE and EXEC together for secure-VM-owned and cache-owned mappings; after every API call /proc/self/maps must contain no rwx line; a self-test first shows that the monitor does see the RWX request of a non-secure JIT VM; non-trivial = the history produced protection events; distinct by hash of the history",
+        "assumptions": ["the harness binary is linked with a non-executable stack (-z noexecstack) so that /proc/self/maps snapshots are meaningful; librandomx's .S file lacks a .note.GNU-stack section, which would otherwise make the process stack executable - not a code buffer owned by the library, not judged"],
+        "level_text": "Every protection request of every explored history is checked online against the W^X rule with the kernel's own view as a second reading. Histories are sampled: exploration.",
+        "level_note": "The cache clause is unconditional: the same online checker also judges cache-owned mappings in every other check that runs through the interposition layer.",
     },
 }
